@@ -16,6 +16,73 @@ type core struct {
 	snaps    []kvdb.Snapshot
 	tick     func()
 	replayTo kvdb.Writer
+	// viaBatch: pre-state content is written through the store's ONE long-lived batch object (queue, Write,
+	// Reset) instead of direct Put/Delete, so that whatever the batch keeps after Reset is in play afterwards
+	viaBatch bool
+}
+
+// opsConsistent: does every key named by the batch hold, in `content`, the value of the last operation naming it?
+// (only decides in which order a pre-state with a written batch is assembled)
+func opsConsistent(ops []interface{}, content [][2]string, absent string) bool {
+	have := map[string]string{}
+	for _, p := range content {
+		have[p[0]] = p[1]
+	}
+	last := map[string]string{}
+	for _, o := range ops {
+		m := obj(o)
+		if str(m["t"]) == "put" {
+			last[str(m["k"])] = str(m["v"])
+		} else {
+			last[str(m["k"])] = absent
+		}
+	}
+	for k, v := range last {
+		h, ok := have[k]
+		if !ok {
+			h = "~"
+		}
+		if h != v {
+			return false
+		}
+	}
+	return true
+}
+
+// setVia makes the content of the store equal to want, through the long-lived batch when viaBatch is set.
+func (c *core) setVia(want [][2]string) error {
+	if !c.viaBatch {
+		return setContent(c.st, want)
+	}
+	keep := map[string]bool{}
+	for _, p := range want {
+		keep[string(decKey(p[0]))] = true
+	}
+	c.ensureBatch()
+	for _, k := range allKeys(c.st) {
+		if !keep[string(k)] {
+			kb := spare(k)
+			err := c.batch.Delete(kb)
+			scribble(kb)
+			if err != nil {
+				return err
+			}
+		}
+	}
+	for _, p := range want {
+		kb, vb := spare(decKey(p[0])), spare(decVal(p[1]))
+		err := c.batch.Put(kb, vb)
+		scribble(kb)
+		scribble(vb)
+		if err != nil {
+			return err
+		}
+	}
+	if err := c.batch.Write(); err != nil {
+		return err
+	}
+	c.batch.Reset()
+	return nil
 }
 
 func (c *core) ensureBatch() {
@@ -151,8 +218,10 @@ func (in *kvInst) build(state map[string]interface{}) error {
 	in.nsnaps = len(snaps)
 	in.ensureSlots(in.nsnaps)
 	bw, _ := state["bw"].(bool)
-	if bw {
-		// a written batch: queue, write, then bring the store to its content below
+	// a written batch whose effect is still what the store holds is written last (the natural history);
+	// otherwise it is written first and the store brought to its content afterwards
+	late := bw && opsConsistent(list(state["batch"]), pairs(state["store"]), "~")
+	if bw && !late {
 		if err := in.buildBatch(list(state["batch"])); err != nil {
 			return err
 		}
@@ -161,10 +230,14 @@ func (in *kvInst) build(state map[string]interface{}) error {
 			return err
 		}
 	}
+	set := in.setVia
+	if bw && !late {
+		set = func(want [][2]string) error { return setContent(in.st, want) } // the written batch stays untouched
+	}
 	for i, s := range snaps {
 		m := obj(s)
 		if live, _ := m["live"].(bool); live {
-			if err := setContent(in.st, pairs(m["view"])); err != nil {
+			if err := set(pairs(m["view"])); err != nil {
 				return err
 			}
 			sn, err := in.st.GetSnapshot()
@@ -174,11 +247,22 @@ func (in *kvInst) build(state map[string]interface{}) error {
 			in.snaps[i] = sn
 		}
 	}
-	if err := setContent(in.st, pairs(state["store"])); err != nil {
+	if bw && !late {
+		// the written batch object must stay as it is: no further use of it
+		if err := setContent(in.st, pairs(state["store"])); err != nil {
+			return err
+		}
+		return nil
+	}
+	if err := in.setVia(pairs(state["store"])); err != nil {
 		return err
 	}
-	if !bw {
-		return in.buildBatch(list(state["batch"]))
+	if err := in.buildBatch(list(state["batch"])); err != nil {
+		return err
+	}
+	if late {
+		in.ensureBatch()
+		return in.batch.Write()
 	}
 	return nil
 }
@@ -223,7 +307,7 @@ func KVAdapter(env *Env, backend, layers string) replay.Adapter {
 		if err != nil {
 			return nil, err
 		}
-		in := &kvInst{core: core{env: env, st: st.top, tick: st.tick, replayTo: st.replayTo}}
+		in := &kvInst{core: core{env: env, st: st.top, tick: st.tick, replayTo: st.replayTo, viaBatch: n%2 == 0}}
 		if err := in.build(obj(pre)); err != nil {
 			return nil, fmt.Errorf("cannot establish pre-state: %v", err)
 		}
